@@ -6,7 +6,7 @@
 (* A support threshold is <<n, d, k>>: the rational n/d in abstract score     *)
 (* coordinates moved by k ulp (k = -1 / +1 for the sentinels one ulp outside   *)
 (* the scores, 0 otherwise).  They are ordered lexicographically by (n/d, k).  *)
-EXTENDS Threshold, SequencesExt
+EXTENDS Threshold, SequencesExt, Fixed
 
 T3(thr, S) == CASE thr[1] = "below" -> <<S[1], 1, -1>>
                 [] thr[1] = "above" -> <<S[Len(S)], 1, 1>>
@@ -58,4 +58,29 @@ Aggregate(x, dx, dy) ==
          hi == CHOOSE v \in {dy[j][2] : j \in ins} \cup {dy[i][2]} :
                  \A w \in {dy[j][2] : j \in ins} \cup {dy[i][2]} : v >= w
      IN <<lo, hi>>]
+
+(* fixed-point image of an exact rate                                            *)
+Rate6(r) == (r[1] * FS) \div r[2]
+
+(* pointwise interval of one rate at one support point (roc_curve.py:329-345):   *)
+(* the bootstrap interval, except that an observed rate of exactly 0 or 1 (count *)
+(* k = 0 or k = n out of the n samples the rate is defined on) gets the          *)
+(* generalised rule-of-three interval                                            *)
+RuleOfThree(k, n, boot, a) ==
+  IF k = 0 THEN <<0, FS - Root6(a, n)>>
+  ELSE IF k = n THEN <<Root6(a, n), FS>>
+  ELSE boot
+
+(* closed form of roc_with_ci under an identity sampler.                          *)
+(*   fn[j], fp[j] : error counts at support point j;  np, nn : class sizes        *)
+(*   u[j] = FNR at threshold_at_fpr(fpr_j),  w[j] = FPR at threshold_at_fnr(fnr_j) *)
+(*          (exact rates: with an identity sampler every replicate equals them)   *)
+(* returns [fnr |-> band, fpr |-> band], each a sequence of <<lo, hi>>            *)
+ClosedFormBands(fn, fp, np, nn, u, w, a) ==
+  LET n == Len(fn)
+      fnr6 == [j \in 1..n |-> Rate6(R(fn[j], np))]
+      fpr6 == [j \in 1..n |-> Rate6(R(fp[j], nn))]
+      fnrCI == [j \in 1..n |-> RuleOfThree(fn[j], np, <<Rate6(u[j]), Rate6(u[j])>>, a)]
+      fprCI == [j \in 1..n |-> RuleOfThree(fp[j], nn, <<Rate6(w[j]), Rate6(w[j])>>, a)]
+  IN [fpr |-> Aggregate(fnr6, fnrCI, fprCI), fnr |-> Aggregate(fpr6, fprCI, fnrCI)]
 =============================================================================
